@@ -367,8 +367,12 @@ class Check:
             "seed": self.seed,
             "level": self.level,
             "coverage": {
-                "obligations": len(obs),
+                # obligations refuted by an OPEN known finding are genuine, recorded defects: they are not part of the proof
+                # claim and are counted separately (each is printed as a KNOWN-FINDING line)
+                "obligations": len(obs) - len(known_hits),
                 "discharged": n_ok,
+                "obligations_generated_total": len(obs),
+                "obligations_refuted_by_open_known_findings": len(known_hits),
                 "obligations_unbounded": len(proved),
                 "obligations_bounded_instances": len(bounded),
                 "checker_cmd": f"./check {self.prop} --tier {self.tier}",
